@@ -2,11 +2,18 @@
 event and TLC checks ref = Layout) + the message generator drawing from the value classes of
 DESIGN Appendix A, restricted to the value domain MCWire derives."""
 import random
+import zlib
 
 from dsl import WIDTH, cfg, pad_of, pkt, res, root
 
 
+class OutOfDomain(Exception):
+    """The message has no encoding (a length / count does not fit its declared width): unspecified, skipped."""
+
+
 def int_be(n, w):
+    if n >= 256 ** w:
+        raise OutOfDomain("%d does not fit %d bytes" % (n, w))
     return list(n.to_bytes(w, "big"))
 
 
@@ -221,6 +228,7 @@ class MsgGen:
         self.str_idx = str_idx
         self.key = key          # (field name, key bytes, payload pkt) forced for match fields
         self.payload = payload
+        self.depth = 0
 
     def scalar(self, f):
         w = WIDTH[f["ty"]]
@@ -256,8 +264,14 @@ class MsgGen:
         if f["rep"]:
             apw = cfg(self.P)["ap"]
             n = self.list_len if self.list_len is not None else self.rnd.choice([0, 1, 3])
+            if self.depth > 0:
+                n = min(n, 3)         # long lists only at the top level: a list of 130 lists of 130 proves nothing more
             n = min(n, 256 ** apw - 1)
-            return {"t": "l", "xs": [self.elem(f) for _ in range(n)]}
+            self.depth += 1
+            try:
+                return {"t": "l", "xs": [self.elem(f) for _ in range(n)]}
+            finally:
+                self.depth -= 1
         return self.elem(f)
 
     def fields(self, fs):
@@ -289,32 +303,36 @@ class MsgGen:
 
 
 def messages(P, count, seed, thorough=False):
-    """A list of (label, message tree) for the root packet."""
+    """A list of (label, message tree) for the root packet: a compact sweep over the value classes
+    (every int class, every string class, list lengths 0/1/2/3/130[/300], every match alternative and
+    key), then seeded random compositions of the same classes."""
     rnd = random.Random(seed)
     out = []
     r = root(P)
-    # deterministic sweep: each int class, each string index, list lengths
-    for cls in INT_CLASSES:
-        out.append(("int=" + cls, {"t": "o", "fs": MsgGen(P, random.Random(1), list_len=1, int_cls=cls, str_idx=1).fields(r["fields"])}))
-    for si in range(1, 5):
-        out.append(("str#%d" % si, {"t": "o", "fs": MsgGen(P, random.Random(2), list_len=2, int_cls="pattern", str_idx=si).fields(r["fields"])}))
-    for ll in ([0, 3, 130] + ([300] if thorough else [])):
-        out.append(("list=%d" % ll, {"t": "o", "fs": MsgGen(P, random.Random(3), list_len=ll, int_cls="pattern", str_idx=2).fields(r["fields"])}))
-    # every match alternative of every root-level match field
+
+    def mk(label, **kw):
+        out.append((label, {"t": "o", "fs": MsgGen(P, random.Random(zlib.crc32(label.encode())), **kw).fields(r["fields"])}))
+    mk("pattern", list_len=1, int_cls="pattern", str_idx=1)
+    mk("zero-empty", list_len=0, int_cls="zero", str_idx=0)
+    mk("ones-utf8", list_len=3, int_cls="ones", str_idx=2)
+    mk("sign-long", list_len=2, int_cls="sign", str_idx=3)
+    mk("one-list130", list_len=130, int_cls="one", str_idx=4)
     for f0 in r["fields"]:
         f = res(P, f0)
         if f["k"] == "match":
             for p in f["pairs"]:
                 for kb in p["keys"]:
-                    out.append(("key=%s" % kb, {"t": "o", "fs": MsgGen(P, random.Random(4), list_len=1, int_cls="pattern", str_idx=1,
-                                                                      key=(f["name"], kb, p["pkt"])).fields(r["fields"])}))
+                    mk("key=%s" % "".join("%02x" % b for b in kb), list_len=1, int_cls="pattern", str_idx=1, key=(f["name"], kb, p["pkt"]))
+    if thorough:
+        mk("list300", list_len=300, int_cls="pattern", str_idx=1)
+        for i in range(8):
+            out.append(("rnd%d" % i, {"t": "o", "fs": MsgGen(P, rnd).fields(r["fields"])}))
     while len(out) < count:
         out.append(("rnd%d" % len(out), {"t": "o", "fs": MsgGen(P, rnd).fields(r["fields"])}))
-    # dedupe, keep order
     seen, res_ = set(), []
     for lab, m in out:
         key = repr(m)
         if key not in seen:
             seen.add(key)
             res_.append((lab, m))
-    return res_[:max(count, 1)] if not thorough else res_
+    return res_
